@@ -174,7 +174,8 @@ def enum_valid(program, prims, families, counts):
         return True
 
     def rec(i):
-        while i < n and not (prims[i].owner is None or assign.get(("sched", prims[i].owner), True)):
+        while i < n and not ((prims[i].owner is None or assign.get(("sched", prims[i].owner), True))
+                             and (prims[i].cond is None or assign.get(prims[i].cond, False))):
             i += 1
         if i == n:
             cl = ref.clauses(program, assign, families)
